@@ -30,4 +30,16 @@ TEXT = {
           "hand-written model; the two pure decision functions are tied by differential streams.",
   "technique": "Lean 4 proof (induction/omega) + regenerated constants + differential correspondence",
  },
+ "C11": {
+  "text": "Kernel-checked theorems over the Go-faithful model (wrapping int64, truncating big.Int.Quo) of the reward "
+          "arithmetic: rounded-down pro-rata shares never exceed the split amount (stake, sentinel, pillar/backers, "
+          "liquidity stake), the pillar formula stays within (delegation+producing per momentum) x expected momentums, "
+          "and for every uint64 epoch the regenerated emission tables give non-negative pieces that sum to at most the "
+          "network emission per coin; tied by regenerated tables and a differential stream that runs the real contract "
+          "functions on an in-memory storage.",
+  "design_ref": "§3 C11",
+  "note": "Arithmetic part only (T1-T3). Epoch cursor (exactly once, in order), collect-once and node-independence are "
+          "not covered by this check yet.",
+  "technique": "Lean 4 proof (induction/omega/decide over generated tables) + regenerated constants + differential correspondence",
+ },
 }
